@@ -339,24 +339,41 @@ def rule_cwd(A: Analysis, rep):
     fc = A.fn("context.Context.from_cwd")
     loops = [l for l in walk_local(fc.node) if isinstance(l, ast.For)]
     ok = False
+    ok_err = False
     if len(loops) == 1:
         l = loops[0]
+        g = A.cfg(fc, "plain")
         it = A.xtext(l.iter, fc)
         ok_iter = it in ("itertools.chain([pathlib.Path.cwd()], pathlib.Path.cwd().parents)", "[pathlib.Path.cwd(), *pathlib.Path.cwd().parents]")
         p = norm(l.target)
-        ifs = [i for i in l.body if isinstance(i, ast.If)]
+        hdr = [n for n in g.nodes if n.kind == "for" and n.ast is l][0]
+        tests = [n for n in g.nodes if n.kind == "test" and n.ast is not None and id(n.ast) in {id(x) for x in ast.walk(l)} and
+                 A.xtext(n.ast, fc) == "(%s / CONFIG_FILE_NAME).is_file()" % p]
         ok_body = False
-        if len(ifs) == 1:
-            tx = A.xtext(ifs[0].test, fc)
-            ok_body = tx == "(%s / CONFIG_FILE_NAME).is_file()" % p and any(isinstance(r, ast.Return) and norm(r.value) == "cls(project_root=%s)" % p for r in ifs[0].body)
-        no_else_exit = not any(isinstance(x, (ast.Break, ast.Continue)) for x in walk_local(l))
-        ok = ok_iter and ok_body and no_else_exit
+        if len(tests) == 1:
+            t_ = tests[0]
+            t_succ = [m for (m, lb) in t_.succ if branch_of(lb) == "T"]
+            f_succ = [m for (m, lb) in t_.succ if branch_of(lb) == "F"]
+            # a hit leaves the loop at once; a miss goes on to the next candidate and nowhere else
+            hit_leaves = not any(any(m is hdr and is_back(lb) for (m, lb) in n.succ) for n in g.reach(t_succ, skip_labels=is_exc))
+            miss = g.reach(f_succ, removed=[hdr], skip_labels=is_exc)
+            miss_continues = g.exit not in miss and not any(n.kind == "stmt" and isinstance(n.ast, (ast.Return, ast.Raise, ast.Break)) for n in miss)
+            # every value returned is the Context of that first hit
+            rets = [n for n in g.nodes if n.kind == "stmt" and isinstance(n.ast, ast.Return) and n.ast.value is not None]
+            rv = [cv for r_ in rets for cv in A.rvalues(fc, r_.ast.value, r_, g, depth=3)]
+            hit_atom = A.atom(t_.ast, fc)[0]
+            ret_ok = bool(rv) and all(v == "cls(project_root=%s)" % p and (hit_atom, True) in c for c, v in rv)
+            ok_body = hit_leaves and miss_continues and ret_ok
+            # exhausting the candidates ends in MissingProjectRoot (the only feasible continuation: see ret_ok)
+            ex_succ = [m for (m, lb) in hdr.succ if branch_of(lb) == "F" or lb == "F"]
+            after = g.reach(ex_succ, skip_labels=is_exc)
+            ok_err = any(n.kind == "stmt" and isinstance(n.ast, ast.Raise) and "MissingProjectRoot" in norm(n.ast) for n in after)
+        ok = ok_iter and ok_body
     rep.check(ok, "CWD2", "nearest ancestor with cond_config.toml", fc.node, "iterates [cwd, *cwd.parents] in order and returns at the first directory holding the config file",
               "project-root discovery no longer returns the nearest ancestor containing the config file")
     v = A.prog.fold_fq("conductor.config.CONFIG_FILE_NAME")
     rep.check(v == "cond_config.toml", "CWD2", "config file name", None, "", "CONFIG_FILE_NAME is %r" % (v,), deep=False)
-    after = fc.node.body[-1]
-    rep.check(isinstance(after, ast.Raise) and "MissingProjectRoot" in norm(after), "CWD2", "no root ⇒ error", fc.node, "", "from_cwd does not raise MissingProjectRoot when no ancestor qualifies", deep=False)
+    rep.check(ok_err, "CWD2", "no root ⇒ error", fc.node, "", "from_cwd does not raise MissingProjectRoot when no ancestor qualifies", deep=False)
     # every CLI command obtains its context via from_cwd
     for cmd in ("run", "archive", "restore", "gc", "clean"):
         f = A.fn("cli.%s.main" % cmd)
